@@ -61,18 +61,25 @@ class Spec(L.Spec):
 
     def execute(self, st, lab):
         parts = lab.split(":")
-        if self.client and self.reqform != "bytes" and len(parts) >= 4 and parts[:2] == ["l", "hdr"] and parts[3] == "request":
+        if self.client and len(parts) >= 4 and parts[:2] == ["l", "hdr"] and parts[3] == "request":
             # the same request, written with text values (and byte or text names): the remembered :authority is reported as bytes all the same
             o0, info = None, None
             blk = L.BLOCKS["request"]
             if self.reqform == "mixed":
                 hdrs = [(n, v.decode("ascii")) for n, v in blk]
+            elif self.reqform == "bytes":
+                hdrs = list(H.ni(blk))
             else:
                 hdrs = [(n.decode("ascii"), v.decode("ascii")) for n, v in blk]
             real = st.h.api
 
             def api(method, sid, _ignored, **kw):
-                return real(method, sid, hdrs, **kw)
+                try:
+                    return real(method, sid, hdrs, **kw)
+                finally:
+                    # the list belongs to the application, which goes on using it for its next request to another origin:
+                    # what the library reports later is the authority this request was SENT with
+                    hdrs[:] = [(b":method", b"GET"), (b":scheme", b"https"), (b":path", b"/"), (b":authority", b"later.example")]
             st.h.api = api
             try:
                 return super().execute(st, lab)
@@ -102,6 +109,8 @@ class Spec(L.Spec):
         h = st.h
         m = h.m
         info = {"dir": parts[0], "kind": "altsvc", "es": False}
+        if parts[0] == "l" and self.client:
+            info["proj0"] = H.quiescent_projection(h.conn)
         if parts[0] == "l":
             if parts[2] == "origin":
                 info.update(form="origin", sid=0)
@@ -143,6 +152,13 @@ class Spec(L.Spec):
             if client:
                 if not (o.kind == "raise" and o.is_proto and not o.raw):
                     bad("client-advertised", "%s on a client -> %s" % (lab, o.brief()), form=form)
+                else:
+                    # "only servers can advertise": the refusal is about the caller's role and leaves the connection exactly
+                    # as it was - connection state included
+                    diff = H.projection_diff(info["proj0"], H.quiescent_projection(st.h.conn))
+                    if diff:
+                        bad("refused-client-advertisement-changed-state", "%s raised %s but changed: %s" % (lab, o.exc_name, ", ".join(diff)),
+                            form=form, changed=",".join(diff))
                 return "l-client-refused"
             if form == "origin":
                 if st.h.m.closed:
